@@ -4,6 +4,7 @@ package main
 // per acyclic path between cut points (entry, annotated loop heads, exits).
 
 import (
+	"time"
 	"go/ast"
 	"fmt"
 	"go/constant"
@@ -75,6 +76,7 @@ type Exec struct {
 	pendingBinds []Val
 	pendingFn *ssa.Function
 	callReqHit map[*Clause]bool
+	started time.Time
 	prop string // property being decided: only clauses tagged with it (or untagged) are active
 }
 
@@ -87,6 +89,12 @@ func (ex *Exec) active(props []string) bool {
 }
 
 const maxStepsPerFunc = 400000
+
+// fnBudget bounds the symbolic exploration of one function (wall clock). On the
+// unchanged tree the slowest function (cmd/age main) needs a few seconds; a
+// change that adds an unannotated loop must end in "undecided", not in a check
+// that never finishes.
+var fnBudget = 90 * time.Second
 
 func (ex *Exec) loopsOf(fn *ssa.Function) *LoopInfo {
 	if li, ok := ex.loopCache[fn]; ok {
@@ -624,6 +632,13 @@ func escapingAllocs(fn *ssa.Function) map[*ssa.Alloc]bool {
 func (ex *Exec) step(st *State, fr *Frame, b *ssa.BasicBlock, idx int, prev *ssa.BasicBlock, k Kont) {
 	for ; idx < len(b.Instrs); idx++ {
 		ex.nsteps++
+		if ex.nsteps%2048 == 0 && !ex.started.IsZero() && time.Since(ex.started) > fnBudget {
+			if !ex.aborted {
+				ex.errors = append(ex.errors, fmt.Sprintf("%s: exploration time budget of %s exceeded (a loop needs an invariant?)", funcKey(ex.top), fnBudget))
+			}
+			ex.aborted = true
+			return
+		}
 		if ex.nsteps > maxStepsPerFunc {
 			if ex.nsteps == maxStepsPerFunc+1 {
 				ex.errors = append(ex.errors, fmt.Sprintf("%s: step budget exceeded (a loop needs an invariant?)", funcKey(ex.top)))
